@@ -120,35 +120,40 @@ type subscriber struct {
 	evs []string
 }
 
-func (s *subscriber) record(e krt.Event[Out]) {
-	var tok string
+// evToken renders one delivered event: `A~key~val`, `U~key~old~new`, `D~key~old`; `X~...` for an
+// event whose shape is wrong (Lean rejects it as malformed).
+func evToken[T any](e krt.Event[T], val func(T) string) string {
 	switch e.Event {
 	case controllers.EventAdd:
 		if e.New == nil || e.Old != nil {
-			tok = "X~add-shape"
-		} else {
-			tok = "A~" + krt.GetKey(*e.New) + "~" + e.New.Val
+			return "X~add-shape"
 		}
+		return "A~" + krt.GetKey(*e.New) + "~" + val(*e.New)
 	case controllers.EventUpdate:
 		if e.New == nil || e.Old == nil {
-			tok = "X~update-shape"
-		} else if krt.GetKey(*e.New) != krt.GetKey(*e.Old) {
-			tok = "X~update-key-change"
-		} else {
-			tok = "U~" + krt.GetKey(*e.New) + "~" + e.Old.Val + "~" + e.New.Val
+			return "X~update-shape"
 		}
+		if krt.GetKey(*e.New) != krt.GetKey(*e.Old) {
+			return "X~update-key-change"
+		}
+		return "U~" + krt.GetKey(*e.New) + "~" + val(*e.Old) + "~" + val(*e.New)
 	case controllers.EventDelete:
 		if e.Old == nil || e.New != nil {
-			tok = "X~delete-shape"
-		} else {
-			tok = "D~" + krt.GetKey(*e.Old) + "~" + e.Old.Val
+			return "X~delete-shape"
 		}
-	default:
-		tok = "X~unknown-type"
+		return "D~" + krt.GetKey(*e.Old) + "~" + val(*e.Old)
 	}
+	return "X~unknown-type"
+}
+
+func (s *subscriber) add(tok string) {
 	s.mu.Lock()
 	s.evs = append(s.evs, tok)
 	s.mu.Unlock()
+}
+
+func (s *subscriber) record(e krt.Event[Out]) {
+	s.add(evToken(e, func(o Out) string { return o.Val }))
 }
 
 func (s *subscriber) snapshot() []string {
@@ -436,7 +441,7 @@ func runCase(t *testing.T, lines [][]string, impl, trace *wire.Out) {
 		done++
 	}
 	synctest.Test(t, func(t *testing.T) {
-		var c *caseRun
+		var c runner
 		defer func() {
 			if r := recover(); r != nil {
 				for done < len(lines) {
@@ -444,22 +449,18 @@ func runCase(t *testing.T, lines [][]string, impl, trace *wire.Out) {
 				}
 			}
 			if c != nil {
-				close(c.stop)
+				c.close()
 			}
 			synctest.Wait()
 		}()
 		head := lines[0]
-		tr, ok := Transform{}, false
-		if len(head) >= 4 {
-			tr, ok = parseTransform(head[3])
-		}
-		if !ok {
+		c = newRunner(head)
+		if c == nil {
 			for done < len(lines) {
 				emit("bad-op", strings.Join(lines[done], " "))
 			}
 			return
 		}
-		c = newCaseRun(tr, contains(head[4:], "f6"))
 		emit("ok", strings.Join(head, " "))
 		for _, l := range lines[1:] {
 			a, b := c.step(l)
@@ -468,6 +469,29 @@ func runCase(t *testing.T, lines [][]string, impl, trace *wire.Out) {
 	})
 	impl.Flush()
 	trace.Flush()
+}
+
+// runner executes the ops of one case on real krt collections.
+type runner interface {
+	step(toks []string) (string, string)
+	close()
+}
+
+func (c *caseRun) close() { close(c.stop) }
+
+// newRunner builds the program named by the case header (nil: malformed header).
+func newRunner(head []string) runner {
+	if len(head) < 4 || head[0] != "case" {
+		return nil
+	}
+	if strings.HasPrefix(head[2], "join") {
+		return newJoinRun(head)
+	}
+	tr, ok := parseTransform(head[3])
+	if !ok {
+		return nil
+	}
+	return newCaseRun(tr, contains(head[4:], "f6"))
 }
 
 func splitCases(lines [][]string) [][][]string {
